@@ -7,6 +7,7 @@ from canon import coq_bytes, coq_list, exn_name
 ID = "C03"
 LEVEL = "proof"
 PROPS_FILE = "Props/C03.v"
+EXTRA_PROPS = ("Props/C03Tie.v",)
 CORR_VO = "Corr/C03.vo"
 REQUIRE = "From Curtsies Require Import Model.Base Model.Utf8 Model.Keys Corr.C03."
 CASE_TYPE = "C03.case"
